@@ -96,6 +96,8 @@ def s_cmp(name, a, b):
   if not isz(a) and not isz(b):
     return bool({'lt': a < b, 'le': a <= b, 'gt': a > b, 'ge': a >= b, 'eq': a == b, 'ne': a != b}[name])
   a, b = _num(a, b)
+  if a.eq(b):
+    return name in ('le', 'ge', 'eq')
   if name == 'lt': return a < b
   if name == 'le': return a <= b
   if name == 'gt': return a > b
@@ -260,6 +262,15 @@ class TermArr:
   def div(self, other):
     self._oblige_nonzero(other)
     return self._ew(other, s_div)
+  def intdiv(self, other, swap=False):
+    """Integer division (operands are non-negative in the index arithmetic this is used for)."""
+    def f(x, y):
+      if not isz(x) and not isz(y):
+        return int(x) // int(y)
+      x, y = R(x), R(y)
+      return x / y          # z3 Int division: floor for positive divisors
+    return self._ew(other, f, swap=swap)
+
   def rdiv(self, num):
     self._oblige_nonzero(self)
     return self._ew(num, s_div, swap=True)
@@ -441,8 +452,16 @@ def select_n(ins):
   sym = next(x for x in ins if isinstance(x, TermArr))
   P = pred.a if isinstance(pred, TermArr) else np.asarray(pred)
   cs = [c.a if isinstance(c, TermArr) else sym._other(c) for c in cases]
-  shape = P.shape
+  shape = np.broadcast_shapes(P.shape, *[np.shape(c) for c in cs])
+  P = np.broadcast_to(P, shape)
   cs = [np.broadcast_to(c, shape) for c in cs]
+  if getattr(sym.sp, 'nan_sentinel', None) is not None:
+    def fix(c):
+      o = np.empty(c.size, dtype=object)
+      for k, v in enumerate(c.flat):
+        o[k] = sym.sp.nan_sentinel if (isinstance(v, float) and v != v) else v
+      return o.reshape(c.shape)
+    cs = [fix(c) for c in cs]
   out = np.empty(int(np.prod(shape, dtype=int)), dtype=object)
   for i, idx in enumerate(np.ndindex(*shape)):
     p = P[idx]
@@ -493,28 +512,105 @@ def dynamic_slice(ins, params):
   return TermArr(out, sym.sp)
 
 
-def gather_symbolic_index(ins, params):
-  raise NotImplementedError('gather with symbolic indices')
-
-
-def apply_uf(prim_name, params, ins, sp):
-  """Symbolic rule for the uninterpreted primitives uf / ufd (elementwise z3 functions)."""
-  name = params['name'] if prim_name == 'uf' else f"{params['name']}__d{params['index']}"
-  n = len(ins)
-  f = sp.ufs.get((name, n))
-  if f is None:
-    f = z3.Function(name, *([z3.RealSort()] * (n + 1)))
-    sp.ufs[(name, n)] = f
+def gather_symbolic_index(ins, params, prim=None):
+  """gather whose start indices are symbolic Int terms: each output element is an ite-chain over the
+  possible (clamped) values of ITS index vector; the data movement for every concrete index value is
+  obtained by running the real primitive on element ids."""
+  import jax.numpy as jnp
+  from jax import lax
+  operand, indices = ins
   sym = next(x for x in ins if isinstance(x, TermArr))
-  arrs = [x.a if isinstance(x, TermArr) else sym._other(x) for x in ins]
-  shape = np.broadcast_shapes(*[a.shape for a in arrs])
-  arrs = [np.broadcast_to(a, shape) for a in arrs]
-  out = np.empty(int(np.prod(shape, dtype=int)), dtype=object)
-  for i, vals in enumerate(zip(*[a.flat for a in arrs])):
-    zs = []
-    for v in vals:
-      v = R(v)
-      if z3.is_int(v): v = z3.ToReal(v)
-      zs.append(v)
-    out[i] = f(*zs)
-  return TermArr(out.reshape(shape), sp)
+  sp = sym.sp
+  op = operand.a if isinstance(operand, TermArr) else sym._other(operand)
+  idx = indices.a if isinstance(indices, TermArr) else sym._other(indices)
+  dn = params['dimension_numbers']
+  k = idx.shape[-1]
+  rows = idx.reshape(-1, k)
+  nrows = rows.shape[0]
+  maxv = [op.shape[dn.start_index_map[c]] - params['slice_sizes'][dn.start_index_map[c]] for c in range(k)]
+  ids = np.arange(op.size, dtype=np.int64).reshape(op.shape)
+  pool = op.reshape(-1)
+
+  def run(index_array):
+    return np.asarray(lax.gather_p.bind(jnp.asarray(ids), jnp.asarray(index_array.reshape(idx.shape), dtype=jnp.int32), **params))
+  base = run(np.zeros((nrows, k), dtype=np.int64))
+  # which index row does each output element read?  probe row by row (component with a non-trivial range)
+  owner = np.full(base.size, -1, dtype=np.int64)
+  comp = next((c for c in range(k) if maxv[c] > 0), None)
+  if comp is None:
+    res = np.empty(base.size, dtype=object); res[:] = pool[base.reshape(-1)]
+    return TermArr(res.reshape(base.shape), sp)
+  for r in range(nrows):
+    probe = np.zeros((nrows, k), dtype=np.int64); probe[r, comp] = 1
+    changed = (run(probe) != base).reshape(-1)
+    owner[changed] = r
+  if (owner < 0).any():
+    owner[owner < 0] = 0          # elements independent of the probed component
+  out = np.empty(base.size, dtype=object)
+  combos = list(itertools.product(*[range(m + 1) for m in maxv]))
+  tables = {v: run(np.tile(np.asarray(v, dtype=np.int64), (nrows, 1))).reshape(-1) for v in combos}
+  clamped = [[_clamp_index(rows[r, c], 0, maxv[c]) for c in range(k)] for r in range(nrows)]
+  for e in range(base.size):
+    r = owner[e]
+    acc = None
+    for v in combos:
+      val = pool[tables[v][e]]
+      cond = True
+      for c in range(k):
+        ci = clamped[r][c]
+        if isz(ci):
+          cond = s_and(cond, ci == v[c])
+        elif int(ci) != v[c]:
+          cond = False
+      if cond is False:
+        continue
+      acc = val if acc is None else s_ite(cond, val, acc)
+    out[e] = acc
+  return TermArr(out.reshape(base.shape), sp)
+
+
+def specialize(terms, assumptions, timeout_ms=2000, stats=None):
+  """Partial evaluation under assumptions: every arithmetic comparison atom occurring in `terms`
+  that is decided by `assumptions` (checked with two small solver queries per atom) is replaced by
+  its truth value; the result is simplified.  Sound: only implied facts are substituted."""
+  atoms = {}
+  seen = set()
+
+  def rec(t):
+    if t.get_id() in seen:
+      return
+    seen.add(t.get_id())
+    if z3.is_bool(t) and t.num_args() == 2 and (z3.is_le(t) or z3.is_lt(t) or z3.is_ge(t) or z3.is_gt(t) or z3.is_eq(t) or z3.is_distinct(t)) \
+       and z3.is_arith(t.arg(0)):
+      atoms[t.get_id()] = t
+    for c in t.children():
+      rec(c)
+  for t in terms:
+    if isz(t):
+      rec(t)
+  subs = []
+  s = z3.Solver(); s.set('timeout', timeout_ms)
+  s.add(list(assumptions))
+  nq = 0
+  for a in atoms.values():
+    s.push(); s.add(a); r1 = s.check(); s.pop()
+    nq += 1
+    if str(r1) == 'unsat':
+      subs.append((a, z3.BoolVal(False)))
+      continue
+    s.push(); s.add(z3.Not(a)); r2 = s.check(); s.pop()
+    nq += 1
+    if str(r2) == 'unsat':
+      subs.append((a, z3.BoolVal(True)))
+  if stats is not None:
+    stats['atoms'] = stats.get('atoms', 0) + len(atoms)
+    stats['decided'] = stats.get('decided', 0) + len(subs)
+    stats['queries'] = stats.get('queries', 0) + nq
+  out = []
+  for t in terms:
+    if isz(t):
+      t2 = z3.substitute(t, *subs) if subs else t
+      out.append(z3.simplify(t2))
+    else:
+      out.append(t)
+  return out
